@@ -114,7 +114,7 @@ def parse_vspec(path):
                 else:
                     raise SpecError(f'{path}:{i+1}: bad token {rest[k]}')
             u.parts.append(('item', it)); cur_item = it; i += 1
-        elif d in ('@sig', '@loop', '@loopend', '@before', '@after', '@closure', '@closure?', '@ret', '@tail', '@head', '@drop', '@split_or_arm', '@idiom', '@dropstmt'):
+        elif d in ('@sig', '@loop', '@loopend', '@before', '@after', '@closure', '@closure?', '@ret', '@tail', '@head', '@drop', '@split_or_arm', '@idiom', '@dropstmt', '@relift'):
             if cur_item is None: raise SpecError(f'{path}:{i+1}: {d} outside @item')
             a = Ann(kind=d[1:].rstrip('?'), line=i + 1)
             if d.endswith('?'): a.opts['optional'] = '1'   # anchor may be absent (code before/after a fix)
@@ -135,7 +135,7 @@ def parse_vspec(path):
                     i += 1
                 else:
                     a.text, i = take_block(i + 1)
-            elif d in ('@closure', '@closure?', '@idiom'):
+            elif d in ('@closure', '@closure?', '@idiom', '@relift'):
                 # optional third part `<<let PAT = p;>>` (or `bind <<let PAT = p;>>`) = destructuring of the renamed closure
                 # parameter, inserted as the first statement of the closure body (Verus: closure params must be plain variables)
                 m = re.match(r'<<(.*?)>>\s*=>\s*<<(.*?)>>(?:\s*(?:bind\s*)?<<(.*?)>>)?(?:\s+nth=(\d+))?\s*$', rest)
@@ -500,13 +500,14 @@ def closure_braces(tx, hdr_end):
     return [(ct[k].start, '{ '), (ct[j - 1].end, ' }')]
 
 
-def apply_fx(tx, ct, lo, hi, fxname, fxcalls, inserts, mk):
+def apply_fx(tx, ct, lo, hi, fxname, fxcalls, inserts, mk, bare=False):
     """R13 (effect state made explicit): every call `.NAME(ARGS)` / `path::NAME(ARGS)` with NAME in fxcalls gets the
     effect-state variable appended as last argument.  Shared mutable state behind `&self` handles (channels) cannot be
     expressed in Verus; the stub contracts take it as an explicit `&mut` parameter instead."""
     for k in range(lo, hi):
         t = ct[k]
-        if t.kind == 'id' and t.text in fxcalls and ct[k + 1].text == '(' and ct[k - 1].text in ('.', ':'):
+        # fxbare=1: also plain calls `NAME(ARGS)` of a free fn (never the `fn NAME(` of a definition)
+        if t.kind == 'id' and t.text in fxcalls and ct[k + 1].text == '(' and (ct[k - 1].text in ('.', ':') or (bare and ct[k - 1].text != 'fn')):
             close = rl.match_close(ct, k + 1)
             empty = close == k + 2
             trailing = ct[close - 1].text == ','
@@ -545,6 +546,7 @@ class Gen:
         self.labels = []       # {label, line0, line1, region}
         self.dropped = []      # rewrite log
         self.sources = []      # functions under contract: file:lines sha
+        self.degraded = {}         # region -> lost hint anchors (@before/@after): hint skipped, failures there are undecided
         self.inject_false = None   # vacuity self-test: region name whose body gets `assert(false)` at its end
 
     def emit(self, text):
@@ -760,7 +762,10 @@ class Gen:
                 body = src[body_s:body_e]
                 cnt = body.count(a.arg)
                 if cnt != 1:
-                    raise SpecError(f'LOST-ANCHOR: {region}: anchor <<{a.arg}>> occurs {cnt} times')
+                    # a lost *hint* anchor degrades the proof instead of aborting the unit: the hint is skipped, the
+                    # function is still verified; failures inside a degraded function are reported as undecided
+                    self.degraded.setdefault(region, []).append(f'{a.kind} <<{a.arg}>> occurs {cnt} times')
+                    continue
                 pos = body_s + body.index(a.arg)
                 if a.kind == 'after':
                     pos += len(a.arg)
@@ -804,6 +809,8 @@ class Gen:
                 self.apply_dropstmt(tx, a, region)
             elif a.kind == 'idiom':
                 self.apply_idiom(tx, a, region)
+            elif a.kind == 'relift':
+                self.apply_relift(tx, a, region)
             elif a.kind == 'split_or_arm':
                 split_anns.append(a)
         if self.inject_false == region:
@@ -841,7 +848,7 @@ class Gen:
             pending_inserts.append((ct[fp['pclose']].start, ('' if (empty or trailing) else ', ') + f'{fxname}: &mut {fxty}', 'R13'))
             tx.log.append({'rule': 'R13', 'at': f'{it.file}:{l0}', 'text': item.name, 'note': f'effect-state parameter `{fxname}: &mut {fxty}` added'})
             apply_fx(tx, ct, fp['bopen'], body_hi, fxname, it.opts.get('fxcalls', '').split(','), pending_inserts,
-                     lambda pos, text: (pos, text, 'R13'))
+                     lambda pos, text: (pos, text, 'R13'), bare=bool(it.opts.get('fxbare')))
         if it.opts.get('inherent') and imp is not None and imp.trait_name:
             # the method gets an extra parameter (fx), so it can no longer be emitted inside the trait impl
             imp_header = re.sub(r'\b%s\s+for\s+' % re.escape(imp.trait_name), '', imp_header)
@@ -998,6 +1005,28 @@ class Gen:
             j += 1
         tx.edit(ct[k].start, ct[j].end, '', 'R2y', 'declared statement drop (async glue; effect covered by an assumed contract)')
 
+    def apply_relift(self, tx, a, region):
+        """R16: `@relift <<PREFIX(>> => <<lifted_fn(args)>> [nth=N]`: in the enclosing fn, the call expression that starts with
+        PREFIX( (e.g. `World::current(`, `BARRIERS.with(`) and whose argument is the closure lifted by R5 is replaced by a
+        call of that lifted fn, with the thread-local state passed explicitly (usually an `fx=` parameter).  Lets the glue
+        around a lifted closure be verified as a whole: anything the enclosing fn does besides the call is then visible."""
+        s_all = tx.src[tx.start:tx.end]
+        pat = r'\s*'.join(re.escape(tok) for tok in re.findall(r'\w+|[^\w\s]', a.arg))
+        ms = list(re.finditer(pat, s_all))
+        nth = int(a.opts.get('nth', '0'))
+        if (nth == 0 and len(ms) != 1) or nth > len(ms):
+            raise SpecError(f'LOST-ANCHOR: {region}: relift prefix <<{a.arg}>> occurs {len(ms)} times')
+        m = ms[max(nth, 1) - 1]
+        if not a.arg.rstrip().endswith('('):
+            raise SpecError(f'{region}: @relift prefix must end with `(`')
+        ct = tx.ct
+        open_pos = tx.start + m.end() - 1
+        k = next(i for i, t in enumerate(ct) if t.start == open_pos)
+        close = rl.match_close(ct, k)
+        if ct[k + 1].text not in ('|', 'move'):
+            raise SpecError(f'LOST-ANCHOR: {region}: relift: argument of <<{a.arg}>> is not a closure')
+        tx.edit(tx.start + m.start(), ct[close].end, a.arg2, 'R16', f'closure call replaced by call of its lifted body: {a.arg2}')
+
     def apply_idiom(self, tx, a, region):
         """R11: replace one std iterator idiom that Verus cannot ingest (e.g. `.drain(..).collect::<Vec<T>>()`) by a call
         of a prelude contract function whose name starts with `idiom_`.  The anchor is matched modulo whitespace.  This is an
@@ -1125,7 +1154,8 @@ class Gen:
                 bs, be = sct[fp['bopen']].end, sct[fp['bclose']].start
                 b = synthetic[bs:be]
                 if b.count(a.arg) != 1:
-                    raise SpecError(f'LOST-ANCHOR: {region}: anchor <<{a.arg}>> occurs {b.count(a.arg)} times')
+                    self.degraded.setdefault(region, []).append(f'{a.kind} <<{a.arg}>> occurs {b.count(a.arg)} times')
+                    continue
                 pos = bs + b.index(a.arg) + (len(a.arg) if a.kind == 'after' else 0)
                 inserts.append((pos, '\n' + a.text.rstrip() + '\n'))
             elif a.kind == 'tail':
